@@ -113,6 +113,58 @@ theorem NTInv.popTake (H : OHyp E rank Good) {s : St U π} (hb : Base E s) {nt :
   · intro k hk
     exact hle_e k (hkp k hk)
 
+/-- a pop recorded as the successor of `key`: the completeness invariant, the popped program being
+    the one whose successors are to be added -/
+theorem CInv.popTake {s : St U π} (hb : Base E s) {nt : UNT U} (hc : CInv E rank s nt none 0)
+    (key : Option Prog) (e : π × Prog) (h' : List (π × Prog))
+    (h : Heapq.pop (ltE E.ops) (s.heapOf nt) = some (e, h'))
+    (hkey : AList.lookup key (s.succOf nt) = none) (i : Nat) (hi : ∀ F args, e.2 = Tree.node F args → args.length ≤ i) :
+    CInv E rank (s.popTake nt key e h') nt (some e.2) i := by
+  obtain ⟨n1, hst⟩ := hb.ninv.popTake nt key e h' h hkey
+  have hperm := pop_progs h
+  have hsucc : ∀ sj, sj ≠ nt → (s.popTake nt key e h').succOf sj = s.succOf sj := by
+    intro sj hne; rw [popTake_succOf, if_neg hne]
+  have hheapo : ∀ sj, sj ≠ nt → (s.popTake nt key e h').heapOf sj = s.heapOf sj := by
+    intro sj hne
+    show (s.setHeap nt h').heapOf sj = _
+    rw [St.heapOf_setHeap, if_neg hne]
+  have hpe : Popped (s.popTake nt key e h') nt e.2 :=
+    ⟨key, by rw [popTake_succOf, if_pos rfl]; exact AList.lookup_insert_self _ _ _⟩
+  have hpop' : ∀ x, Popped (s.popTake nt key e h') nt x → x = e.2 ∨ Popped s nt x := by
+    rintro x ⟨k, hk⟩
+    rw [popTake_succOf, if_pos rfl, AList.lookup_insert] at hk
+    split at hk
+    · left; cases hk; rfl
+    · right; exact ⟨k, hk⟩
+  refine ⟨hc.keyed, ?_, ?_, ?_⟩
+  · intro F v w hm
+    obtain ⟨kids, h1, h2, h3⟩ := hc.initial F v w hm
+    exact ⟨kids, h1, h2, fun j aj sj a b => hst _ _ _ (h3 j aj sj a b)⟩
+  · intro p hp
+    rcases hc.cover p hp with hh | hpp
+    · have := hperm.subset hh
+      rcases List.mem_cons.mp this with rfl | hm
+      · exact Or.inr hpe
+      · left
+        rw [popTake_heapProgs, if_pos rfl]
+        exact hm
+    · exact Or.inr (hpp.mono hst)
+  · intro F args v hp hk j aj sj haj hsj hr hex
+    have hne : sj ≠ nt := by intro e'; subst e'; exact Nat.lt_irrefl _ hr
+    by_cases heq : e.2 = Tree.node F args
+    · exfalso
+      have h1 := hex (by rw [heq])
+      have h2 := hi F args heq
+      have h3 : j < args.length := (List.getElem?_eq_some_iff.mp haj).1
+      omega
+    · have hp0 : Popped s nt (Tree.node F args) := by
+        rcases hpop' _ hp with h1 | h1
+        · exact absurd h1.symm heq
+        · exact h1
+      rcases hc.succs F args v hp0 hk j aj sj haj hsj hr (by intro e'; cases e') with ⟨q, h1, h2⟩ | ⟨h1, h2, h3⟩
+      · exact Or.inl ⟨q, by rw [hsucc sj hne]; exact h1, h2⟩
+      · exact Or.inr ⟨h1, by rw [hheapo sj hne]; exact h2, by rw [hsucc sj hne]; exact h3⟩
+
 /-- **the loop body of `__add_successors_to_heap__`** keeps the order invariant of `nt` -/
 theorem NTInv.pushStep (H : OHyp E rank Good) {s1 s3 : St U π} (hb : Base E s1) {nt : UNT U} (hn : NTInv E s1 nt)
     {F : Sym} {args : List Prog} {v : List (UNT U)} {i : Nat} {ai : Prog} {si : UNT U} {r : Option Prog}
@@ -120,19 +172,45 @@ theorem NTInv.pushStep (H : OHyp E rank Good) {s1 s3 : St U π} (hb : Base E s1)
     (hpp : Popped s1 nt (Tree.node F args)) (hlatest : ∀ x, Popped s1 nt x → LE E nt x (Tree.node F args))
     (hai : args[i]? = some ai) (hsi : v[i]? = some si) (hne : si ≠ nt)
     (hr : ∀ q, r = some q → Popped s1 si q ∧ LE E si ai q)
+    (hc : CInv E rank s1 nt (some (Tree.node F args)) (i + 1))
+    (hr1 : ∀ q, r = some q → AList.lookup (some ai) (s1.succOf si) = some q)
+    (hr2 : r = none → s1.initS.contains si = true ∧ s1.heapOf si = [] ∧ AList.lookup (some ai) (s1.succOf si) = none)
     (hp : pushStep E s1 F args nt v i r = some s3) :
     Base E s3 ∧ NTInv E s3 nt ∧ s3.succOf nt = s1.succOf nt ∧ Only nt s1 s3 ∧ Stable s1 s3 ∧
-      AList.lookup (nt, Tree.node F args) s3.keys = some v := by
+      AList.lookup (nt, Tree.node F args) s3.keys = some v ∧ CInv E rank s3 nt (some (Tree.node F args)) i := by
   have hk := H.ghyp.kway
-  have hstay : Base E s1 ∧ NTInv E s1 nt ∧ s1.succOf nt = s1.succOf nt ∧ Only nt s1 s1 ∧ Stable s1 s1 ∧
-      AList.lookup (nt, Tree.node F args) s1.keys = some v := ⟨hb, hn, rfl, Only.refl nt s1, Stable.refl s1, hkey⟩
+  -- the position `i` is done when nothing is pushed
+  have hcstay : SuccDone s1 nt F args i ai si → CInv E rank s1 nt (some (Tree.node F args)) i := by
+    intro hdone
+    refine ⟨hc.keyed, hc.initial, hc.cover, ?_⟩
+    intro F' args' v' hp' hk' j aj sj haj hsj hrk hex
+    by_cases hji : some (Tree.node F args) = some (Tree.node F' args') ∧ j = i
+    · obtain ⟨e1, e2⟩ := hji
+      cases e1
+      subst e2
+      rw [hk'] at hkey
+      cases hkey
+      rw [hai] at haj; cases haj
+      rw [hsi] at hsj; cases hsj
+      exact hdone
+    · apply hc.succs F' args' v' hp' hk' j aj sj haj hsj hrk
+      intro e1
+      have := hex e1
+      have hne : j ≠ i := fun e2 => hji ⟨e1, e2⟩
+      omega
+  have hstay : SuccDone s1 nt F args i ai si → Base E s1 ∧ NTInv E s1 nt ∧ s1.succOf nt = s1.succOf nt ∧ Only nt s1 s1 ∧
+      Stable s1 s1 ∧ AList.lookup (nt, Tree.node F args) s1.keys = some v ∧
+      CInv E rank s1 nt (some (Tree.node F args)) i :=
+    fun hdone => ⟨hb, hn, rfl, Only.refl nt s1, Stable.refl s1, hkey, hcstay hdone⟩
   unfold UHS.pushStep at hp
   cases r with
-  | none => simp only [Option.some.injEq] at hp; subst hp; exact hstay
+  | none => simp only [Option.some.injEq] at hp; subst hp; exact hstay (Or.inr (hr2 rfl))
   | some q =>
     simp only at hp
     split at hp
-    · simp only [Option.some.injEq] at hp; subst hp; exact hstay
+    · rename_i hseenq
+      simp only [Option.some.injEq] at hp; subst hp
+      exact hstay (Or.inl ⟨q, hr1 q rfl, by simpa using hseenq⟩)
     · rename_i hnew
       split at hp
       · simp at hp
@@ -189,7 +267,7 @@ theorem NTInv.pushStep (H : OHyp E rank Good) {s1 s3 : St U π} (hb : Base E s1)
           intro nt' x; unfold Popped; rw [hsucc3]
         refine ⟨⟨hs3, n3, hh3, by rw [hpb]; obtain ⟨c, rfl⟩ := hcs; exact hb.nodel⟩, ⟨?_, ?_, ?_, ?_, ?_, ?_⟩, hsucc3 nt,
           (((only_addSeen s1 nt _).trans (only_setKey _ nt _ v)).trans (only_cacheStep hcs nt)).trans
-            (only_pushBoth E hk _ nt pr _), st3, ?_⟩
+            (only_pushBoth E hk _ nt pr _), st3, ?_, ?_⟩
         · rw [hpb]; obtain ⟨c, rfl⟩ := hcs; exact hn.init
         · rw [hsucc3]; exact hn.chain
         · obtain ⟨m, h1, h2⟩ := hn.first
@@ -230,5 +308,62 @@ theorem NTInv.pushStep (H : OHyp E rank Good) {s1 s3 : St U π} (hb : Base E s1)
           exact hn.sorted k x hk'
         · rw [hkeys3, AList.lookup_insert, if_neg (by intro e; exact hnp_ne (congrArg Prod.snd e).symm)]
           exact hkey
+        · -- the completeness invariant
+          have hheapsub : ∀ p, p ∈ s1.heapProgs nt → p ∈ (pushBoth E s2 nt pr (Tree.node F (args.set i q))).heapProgs nt := by
+            intro p hp'
+            unfold St.heapProgs at hp' ⊢
+            rw [hpb, St.heapOf_setHeap, if_pos rfl, hcs.heapOf]
+            exact ((Heapq.push_perm (ltE E.ops) _ _).map (·.2)).symm.subset (List.mem_cons_of_mem _ hp')
+          have hheapnew : Tree.node F (args.set i q) ∈ (pushBoth E s2 nt pr (Tree.node F (args.set i q))).heapProgs nt := by
+            unfold St.heapProgs
+            rw [hpb, St.heapOf_setHeap, if_pos rfl, hcs.heapOf]
+            exact ((Heapq.push_perm (ltE E.ops) _ _).map (·.2)).symm.subset List.mem_cons_self
+          have hheapo : ∀ sj, sj ≠ nt → (pushBoth E s2 nt pr (Tree.node F (args.set i q))).heapOf sj = s1.heapOf sj := by
+            intro sj hne'
+            rw [hpb, St.heapOf_setHeap, if_neg hne', hcs.heapOf]
+            rfl
+          have hinit3 : (pushBoth E s2 nt pr (Tree.node F (args.set i q))).initS = s1.initS := by
+            rw [hpb]; obtain ⟨c, rfl⟩ := hcs; rfl
+          refine ⟨?_, ?_, ?_, ?_⟩
+          · intro p hp'
+            rw [hkeys3, AList.lookup_insert]
+            rcases (hseen3 p).mp hp' with hold | rfl
+            · rw [if_neg (by intro e; cases e; exact hnew' hold)]
+              exact hc.keyed p hold
+            · rw [if_pos rfl]; exact ⟨v, rfl⟩
+          · intro F' v' w' hm'
+            obtain ⟨kids, h1, h2, h3⟩ := hc.initial F' v' w' hm'
+            exact ⟨kids, (hseen3 _).mpr (Or.inl h1), h2, fun j aj sj a b => by rw [hsucc3]; exact h3 j aj sj a b⟩
+          · intro p hp'
+            rcases (hseen3 p).mp hp' with hold | rfl
+            · rcases hc.cover p hold with h1 | h1
+              · exact Or.inl (hheapsub p h1)
+              · exact Or.inr ((hPop3 nt p).mpr h1)
+            · exact Or.inl hheapnew
+          · intro F' args' v' hp' hk' j aj sj haj hsj hrk hex
+            rw [hPop3] at hp'
+            have hold : Tree.node F' args' ∈ s1.seenOf nt := hp'.seen hb.sinv
+            rw [hkeys3, AList.lookup_insert, if_neg (by intro e; cases e; exact hnew' hold)] at hk'
+            have hnej : sj ≠ nt := by intro e'; subst e'; exact Nat.lt_irrefl _ hrk
+            have hlift : SuccDone s1 nt F' args' j aj sj →
+                SuccDone (pushBoth E s2 nt pr (Tree.node F (args.set i q))) nt F' args' j aj sj := by
+              rintro (⟨q', h1, h2⟩ | ⟨h1, h2, h3⟩)
+              · exact Or.inl ⟨q', by rw [hsucc3]; exact h1, (hseen3 _).mpr (Or.inl h2)⟩
+              · exact Or.inr ⟨by rw [hinit3]; exact h1, by rw [hheapo sj hnej]; exact h2, by rw [hsucc3]; exact h3⟩
+            by_cases hji : some (Tree.node F args) = some (Tree.node F' args') ∧ j = i
+            · obtain ⟨e1, e2⟩ := hji
+              cases e1
+              subst e2
+              rw [hk'] at hkey
+              cases hkey
+              rw [hai] at haj; cases haj
+              rw [hsi] at hsj; cases hsj
+              exact Or.inl ⟨q, by rw [hsucc3]; exact hr1 q rfl, (hseen3 _).mpr (Or.inr rfl)⟩
+            · apply hlift
+              apply hc.succs F' args' v' hp' hk' j aj sj haj hsj hrk
+              intro e1
+              have := hex e1
+              have hne'' : j ≠ i := fun e2 => hji ⟨e1, e2⟩
+              omega
 
 end PS.UHS
